@@ -23,6 +23,7 @@ func init() {
 			{ID: "C14-R6", Doc: "procs clamp before Offer; Offer rejects non-positive procs; machprocs>=1", Run: c14r6},
 			{ID: "C14-R7", Doc: "local limiter Acquire(n)/Release(n) pairing", Run: c14r7},
 			{ID: "C14-R8", Doc: "demand accounting: need/pending are written where the matching event is consumed; machine starts are capped by demand and the parallelism limit, less present and pending capacity", Run: c14r8},
+			{ID: "C14-R9", Doc: "indexed heaps keep index == position; load changes are followed by a heap repair", Run: c14r9},
 		},
 	})
 }
@@ -1021,13 +1022,8 @@ func c14r6(c *RC) {
 			if !ok {
 				continue
 			}
-			be, ok := ast.Unparen(ifs.Cond).(*ast.BinaryExpr)
-			if !ok {
-				continue
-			}
-			isGuard := (be.Op == token.LEQ && expr(be.Y) == "0") || (be.Op == token.LSS && expr(be.Y) == "1")
 			_, procsParam := paramNames(fn)
-			if isGuard && expr(be.X) == procsParam {
+			if nonPositiveTest(ifs.Cond, procsParam) {
 				for _, call := range callsIn(ifs.Body) {
 					if !fn.Pkg.mayReturn(call) {
 						guard = true
@@ -1055,11 +1051,7 @@ func c14r6(c *RC) {
 			if !isIf {
 				return true
 			}
-			be, isBe := ast.Unparen(ifs.Cond).(*ast.BinaryExpr)
-			if !isBe || expr(be.X) != mpVar {
-				return true
-			}
-			if !((be.Op == token.LSS && expr(be.Y) == "1") || (be.Op == token.LEQ && expr(be.Y) == "0")) {
+			if !nonPositiveTest(ifs.Cond, mpVar) {
 				return true
 			}
 			for _, st := range ifs.Body.List {
@@ -1225,7 +1217,7 @@ func c14r7(c *RC) {
 			// the failure branch of Acquire holds nothing: stop there
 			cond := fl.edgeCond(from)
 			if cond != nil && from == loc.B {
-				if be, ok := ast.Unparen(cond).(*ast.BinaryExpr); ok && be.Op == token.NEQ && expr(be.Y) == "nil" && from.Succs[0] == to {
+				if _, ok := nonNilEdge(fl, from, to); ok {
 					return x, true
 				}
 			}
